@@ -379,6 +379,15 @@ TEMPLATES = {
  "float-literal-compound-mul": ("let uv: u8 = 2;\n", "uv *= 1.5;"),
  "catch-fallback-wider": ("let w: i64 = 5;\n", "let r: i32 = mayfail(1) catch w;"),
  "catch-fallback-float": ("", "let r: i32 = mayfail(1) catch 2.5;"),
+ # the unhandled-result rule for every kind of callee (seed C03f: lost for variadic callees), and the argument rules of variadic calls
+ "unhandled-result-variadic": ("", "let r: i32 = vfail(2, 1, 2, 3);"),
+ "unhandled-result-variadic-stmt": ("", "vfail(2, 4, 5);"),
+ "unhandled-result-variadic-noargs": ("", "let r: i32 = vfail(2);"),
+ "unhandled-result-method": ("let ac := { .Base = 1 } as Acc;\n", "let r: i32 = ac.mfail(3);"),
+ "unhandled-result-stmt": ("", "mayfail(1);"),
+ "variadic-arg-type": ("", "let r: i32 = vsum(2, 1, true, 3);"),
+ "variadic-fixed-arg-missing": ("", "let r: i32 = vsum();"),
+ "variadic-arg-float": ("let fl: f64 = 1.5;\n", "let r: i32 = vsum(2, fl);"),
  "optional-and-else-narrowing": ("let o: i32? = 5;\nlet fl: bool = true;\n", "if fl && o == none { } else { let n: i32 = o; }"),
  "optional-or-narrowing-relational": ("let o: i32? = 5;\nlet k: i32 = 3;\n", "if k > 2 || o != none { let n: i32 = o; }"),
 }
@@ -390,7 +399,10 @@ TEMPLATE_CONTEXTS = {
  "if-branch": "fn main() {\n let c: bool = true;\n if c {\n%s\n } else {\n }\n}\n",
  "match-arm": "fn main() {\n let v: i32 = 1;\n match v {\n 1 => {\n%s\n }\n _ => { }\n }\n}\n",
 }
-TEMPLATE_PRELUDE = 'import "std/io";\ntype Pt struct { .X: i32, .Y: i32 };\nfn mayfail(a: i32) -> str ! i32 { if a == 0 { return "zero"!; } return a; }\n'
+TEMPLATE_PRELUDE = ('import "std/io";\ntype Pt struct { .X: i32, .Y: i32 };\nfn mayfail(a: i32) -> str ! i32 { if a == 0 { return "zero"!; } return a; }\n'
+                    'fn vfail(scale: i32, nums: ...i32) -> str ! i32 { let sum: i32 = 0; for n in nums { sum = sum + n; } if sum == 0 { return "none"!; } return sum * scale; }\n'
+                    'fn vsum(scale: i32, nums: ...i32) -> i32 { let sum: i32 = 0; for n in nums { sum = sum + n; } return sum * scale; }\n'
+                    'type Acc struct { .Base: i32 };\nfn (a: Acc) mfail(k: i32) -> str ! i32 { if k == 0 { return "zero"!; } return a.Base + k; }\n')
 
 def template_programs():
     out = []
